@@ -273,6 +273,13 @@ func runCorpusCase(c *corpusCase, prop string) *corpusOutcome {
 		return oc
 	}
 	if code != 0 {
+		if c.Mode != "base" {
+			// does base mode accept the same tree? then the modes disagree
+			if _, bc, _ := run(mod, 300*time.Second, *flagCff, target); bc == 0 {
+				add("C20", "%s mode fails on %s (after %v) although base mode accepts the same tree:\n%s", c.Mode, c.Pkg, oc.applied, tailStr(o, 1200))
+				return oc
+			}
+		}
 		add("C14", "cff rejects %s after semantics-preserving mutations %v although it accepts the original program:\n%s", c.Pkg, oc.applied, tailStr(o, 1200))
 		return oc
 	}
